@@ -974,8 +974,13 @@ def json_compat_obj_decode(data_type, obj, caller_permissions=None,
         return decoder.make_stone_friendly(
             data_type, obj, True)
     else:
-        return decoder.json_compat_obj_decode_helper(
+        ret = decoder.json_compat_obj_decode_helper(
             data_type, obj)
+        if isinstance(data_type, (bv.Nullable, bv.List, bv.Map)):
+            # Nullables, lists and maps are otherwise only validated when they
+            # are assigned to a struct field or union member.
+            data_type.validate(ret)
+        return ret
 
 def _strftime(dt, fmt):
     return dt.strftime(fmt)
